@@ -48,7 +48,9 @@ ReplyHandledAt(i) == (i > 1 /\ Trace[i].run = Trace[i - 1].run /\ Trace[i].t # "
            IN mine # {} =>
                 LET last == Trace[i].posts[CHOOSE n \in mine : \A m \in mine : m <= n] IN
                   /\ last.reply \in {"5xx", "none"} => Trace[i].ready[w].st = Trace[k].ready[w].st   \* left in place (only its creator may still be writing it)
-                  /\ last.reply = "4xx" => (Trace[i].ready[w].st = "absent" /\ Trace[i].uploaded[w] = Trace[k].uploaded[w])
+                  \* discarded: the report that was posted is gone (a racing creator that passed its existence checks before
+                  \* the report was made may have created the file anew in the meantime: then it is another file)
+                  /\ last.reply = "4xx" => ((Trace[i].ready[w].st = "absent" \/ Trace[i].ready[w] # Trace[k].ready[w]) /\ Trace[i].uploaded[w] = Trace[k].uploaded[w])
                   /\ last.reply = "200" => Trace[i].uploaded[w].st = "file"
 
 (* C07: the report made ready for upload is the week's one report, never a second or different one *)
